@@ -156,6 +156,8 @@ OK_GRAPHS = {
     "samebase.siblings": ({"main.asm": [" INCLUDE a/part.asm", " INCLUDE b/part.asm", " INCLUDE part.asm"], "a/part.asm": ["A1 NOP"], "b/part.asm": ["B1 CLRA"],
                            "part.asm": ["C1 RTS", " JMP A1"]},
                           ["A1 NOP", "B1 CLRA", "C1 RTS", " JMP A1"]),
+    "case.only": ({"main.asm": [" ORG $2000", " INCLUDE IO.ASM", " RTS"], "IO.ASM": ["UP1 NOP", " INCLUDE io.asm"], "io.asm": ["LO1 CLRA", " BNE UP1"]},
+                  [" ORG $2000", "UP1 NOP", "LO1 CLRA", " BNE UP1", " RTS"]),
     "samebase.deep": ({"main.asm": [" INCLUDE x/inc.asm"], "x/inc.asm": [" NOP", " INCLUDE x/y/inc.asm"], "x/y/inc.asm": ["Y1 RTS", " INCLUDE inc.asm"], "inc.asm": [" BRA Y1"]},
                       [" NOP", "Y1 RTS", " BRA Y1"]),
 }
@@ -294,7 +296,7 @@ def describe(tier):
                     ") sequence of C02's core alphabet with every label binding",
         "bound": "every single contiguous slice moved to an included file; every pair of disjoint slices; every slice nested in a slice (and a third "
                  "level for programs of <= 4 lines" + (" / <= 11 lines" if tier == "thorough" else "") + "); three consecutive includes; a 3-level wrap of the whole "
-                 "program; include depth 3; included files without any statement (empty / comments only) alone, next to another INCLUDE and nested; included files reached through sub/dir.1/name, ./name, sub/../name, sub/dir.1/../dir.1/name and an absolute path; 3 graphs in which different files share a base name (nested, siblings, three levels); 6 error graphs (self, 2- and 3-cycles, missing, nested missing, directory)",
+                 "program; include depth 3; included files without any statement (empty / comments only) alone, next to another INCLUDE and nested; included files reached through sub/dir.1/name, ./name, sub/../name, sub/dir.1/../dir.1/name and an absolute path; 4 graphs in which different files share a base name or differ only in letter case (nested, siblings, three levels); 6 error graphs (self, 2- and 3-cycles, missing, nested missing, directory)",
         "oracle": "Program.process on the including file (cwd = private directory) gives the same image, listing addresses, symbol table and origin "
                   "as the spliced single file (same diagnostic if the base is rejected); a sample of the larger programs also through assembler.py "
                   "--print --symbols --to_bin; missing file / cycle => diagnostic, exit != 0, no output file",
